@@ -1,0 +1,9 @@
+//go:build !verif
+
+package graphql
+
+// Verification hooks (see verif_on.go); no-ops unless built with -tags verif.
+
+func verifYield(string) {}
+
+func verifRecover() {}
